@@ -69,25 +69,41 @@ pub fn roots(prop: &str, tier: &str) -> Vec<Scenario> {
     out
 }
 
-fn one_run<K: Kit>(prop: &'static str, tier: &'static str, idx: usize, sc0: &Scenario, seed: u64, c: &DeepCfg, rep: &mut Report) {
+fn one_run<K: Kit>(prop: &'static str, tier: &'static str, idx: usize, sc0: &Scenario, seed: u64, raw: bool, c: &DeepCfg, rep: &mut Report) {
     let mut sc = sc0.clone();
     sc.params.seed = Some(seed);
     sc.params.bias = c.bias;
     // worlds whose point is a long run of rejected goal roots get fewer, longer calls
     let long = sc.tag.contains("marginally-inside");
     let c = &DeepCfg { seeds: c.seeds, chunks: if long { 2 } else { c.chunks }, chunk_len: if long { 160 } else { c.chunk_len }, bias: c.bias };
-    let info = json!({"scenario_index": idx, "seed": seed, "goal_bias": c.bias, "chunks": c.chunks, "chunk_len": c.chunk_len});
+    let info = json!({"scenario_index": idx, "seed": seed, "goal_bias": c.bias, "chunks": c.chunks, "chunk_len": c.chunk_len, "raw_space": raw});
     CURRENT.with(|x| *x.borrow_mut() = Some(info.clone()));
     crate::explore::watch_desc(|| json!({"deep": info, "scenario": sc.tag}).to_string());
     rep.count("deep_runs", 1);
+    if raw {
+        rep.count("deep_runs_on_the_real_space_type", 1);
+    }
+    // raw: the planner is instantiated over the real space type (no sampler seam); the rig only lends
+    // its world, goal and start to the planner and serves the oracles as context
     let built = guarded(|| {
-        let rig = Rig::<K>::new(&sc, true);
+        let rig = Rig::<K>::new(&sc, !raw);
+        // (setup first, as in the wrapped flow: RRT-Connect's goal root comes from the scenario's script)
+        let rawdrv = if raw {
+            let mut d = crate::drv::RawDrv::<K>::new(&sc.params);
+            let mut start_states = vec![rig.start.clone()];
+            start_states.extend(sc.extra_starts.iter().map(K::from_v));
+            let pd = std::sync::Arc::new(crate::drv::RawPd::<K> { space: std::sync::Arc::new(K::build(&sc.spec)), start_states, goal: rig.goal.clone() });
+            d.setup(pd, rig.world.clone());
+            Some(d)
+        } else {
+            None
+        };
         rig.pass_through();
         rig.logging(true);
         rig.goal_mode(GoalMode::Rng);
-        rig
+        (rig, rawdrv)
     });
-    let mut rig = match built {
+    let (mut rig, mut rawdrv) = match built {
         Ok(r) => r,
         Err(_) => {
             rep.engine_error(format!("could not build deep rig for {}", sc.tag));
@@ -96,20 +112,39 @@ fn one_run<K: Kit>(prop: &'static str, tier: &'static str, idx: usize, sc0: &Sce
     };
     let pk = sc.params.pk;
     let start_ok = rig.world.free(&rig.start);
-    let mut pre = rig.snapshot();
+    let mut pre = match &rawdrv {
+        Some(d) => d.snapshot(),
+        None => rig.snapshot(),
+    };
     for ci in 0..c.chunks {
         let log_mark = rig.world.log.borrow().len();
         let cb_before = crate::seams::cb_counts();
         let res = guarded(|| {
             oxmpl::verif::clock_reset(1_000_000);
-            if pk == Pk::Prm {
-                if ci == 0 {
-                    rig.drv.set_prm_timeout(iters_secs((c.chunk_len * c.chunks).min(160))); // all-pairs linking at a huge radius: keep the callback count under the per-rig cap
-                    let _ = rig.drv.construct_roadmap();
+            let build = iters_secs((c.chunk_len * c.chunks).min(160)); // all-pairs linking at a huge radius: keep the callback count under the per-rig cap
+            match rawdrv.as_mut() {
+                Some(d) => {
+                    if pk == Pk::Prm {
+                        if ci == 0 {
+                            d.set_prm_timeout(build);
+                            let _ = d.construct_roadmap();
+                        }
+                        d.solve(LONG)
+                    } else {
+                        d.solve(iters(c.chunk_len))
+                    }
                 }
-                rig.drv.solve(LONG)
-            } else {
-                rig.drv.solve(iters(c.chunk_len))
+                None => {
+                    if pk == Pk::Prm {
+                        if ci == 0 {
+                            rig.drv.set_prm_timeout(build);
+                            let _ = rig.drv.construct_roadmap();
+                        }
+                        rig.drv.solve(LONG)
+                    } else {
+                        rig.drv.solve(iters(c.chunk_len))
+                    }
+                }
             }
         });
         let result = match res {
@@ -130,7 +165,10 @@ fn one_run<K: Kit>(prop: &'static str, tier: &'static str, idx: usize, sc0: &Sce
         };
         rep.count("deep_iterations", c.chunk_len as u64);
         rep.count("traces_validated", 1);
-        let post = rig.snapshot();
+        let post = match &rawdrv {
+            Some(d) => d.snapshot(),
+            None => rig.snapshot(),
+        };
         let before = rep.viol_counts.values().sum::<u64>();
         if prop == "C15" {
             let cb_after = crate::seams::cb_counts();
@@ -155,7 +193,7 @@ fn one_run<K: Kit>(prop: &'static str, tier: &'static str, idx: usize, sc0: &Sce
         // C04 x PRM: milestones come straight from the sampler. Any milestone can end a returned path
         // (ask for it): every milestone outside the bounds model is made the goal of a replaced problem
         // and the returned path is judged like any other.
-        if prop == "C04" && pk == Pk::Prm {
+        if prop == "C04" && pk == Pk::Prm && !raw {
             if let crate::drv::Snap::Roadmap(g) = &post {
                 let outside: Vec<K::S> = g.iter().map(|(m, _)| m.clone()).filter(|m| !crate::oracles::in_bounds_ref(&rig, m)).take(3).collect();
                 rep.count("deep_prm_milestones_inspected", g.len() as u64);
@@ -289,11 +327,11 @@ pub fn run_transitions(prop: &'static str, tier: &'static str) -> Report {
     rep
 }
 
-fn run_kit<K: Kit>(prop: &'static str, tier: &'static str, jobs: &[(usize, Scenario, u64)], c: &DeepCfg) -> Report {
+fn run_kit<K: Kit>(prop: &'static str, tier: &'static str, jobs: &[(usize, Scenario, u64, bool)], c: &DeepCfg) -> Report {
     jobs.par_iter()
-        .map(|(idx, sc, seed)| {
+        .map(|(idx, sc, seed, raw)| {
             let mut rep = Report::new();
-            one_run::<K>(prop, tier, *idx, sc, *seed, c, &mut rep);
+            one_run::<K>(prop, tier, *idx, sc, *seed, *raw, c, &mut rep);
             rep
         })
         .reduce(Report::new, |mut a, b| {
@@ -309,7 +347,8 @@ pub fn run(prop: &'static str, tier: &'static str) -> Report {
     let mut rep = Report::new();
     rep.count("deep_scenarios", rs.len() as u64);
     for kit in crate::catalog::KITS {
-        let jobs: Vec<(usize, Scenario, u64)> = rs.iter().enumerate().filter(|(_, s)| s.kit == kit).flat_map(|(i, s)| (0..c.seeds).map(move |seed| (i, s.clone(), seed))).collect();
+        // every seed through the sampler seam, every other seed also on the real space type
+        let jobs: Vec<(usize, Scenario, u64, bool)> = rs.iter().enumerate().filter(|(_, s)| s.kit == kit).flat_map(|(i, s)| (0..c.seeds).flat_map(move |seed| if seed % 2 == 0 { vec![(i, s.clone(), seed, false), (i, s.clone(), seed, true)] } else { vec![(i, s.clone(), seed, false)] })).collect();
         if jobs.is_empty() {
             continue;
         }
@@ -363,9 +402,10 @@ pub fn replay_file(v: &Value) -> i32 {
         crate::report::out("ENGINE-ERROR: replay refers to a scenario outside the lattice");
         return 2;
     };
+    let raw = d["raw_space"].as_bool().unwrap_or(false);
     let run = || {
         let mut rep = Report::new();
-        with_kit!(sc.kit, one_run(prop, tier, idx, sc, seed, &c, &mut rep));
+        with_kit!(sc.kit, one_run(prop, tier, idx, sc, seed, raw, &c, &mut rep));
         rep
     };
     let (r1, r2) = (run(), run());
